@@ -265,7 +265,18 @@ func c09Docs(repo string, maxBytes int) []c09Doc {
 		}
 	}
 	for mt, ss := range map[string][]string{
-		"text/html":              {`<!doctype html><html><head><title>T</title><style>a{color:red}</style><script>var a = '<\/script>', b = "\x3C/script>", c = /<\/script>/;</script></head><body><p class="x y">Hello <b>w</b> &amp; <a href="http://x/y?a=1&amp;b=2">l</a><textarea> a  b </textarea></p><pre> a  b </pre><svg><path d="M0 0L1 1z"/></svg><!-- c --><script type="text/template"><div></div></script></body></html>`},
+		"text/html": {`<!doctype html><html><head><title>T</title><style>a{color:red}</style><script>var a = '<\/script>', b = "\x3C/script>", c = /<\/script>/;</script></head><body><p class="x y">Hello <b>w</b> &amp; <a href="http://x/y?a=1&amp;b=2">l</a><textarea> a  b </textarea></p><pre> a  b </pre><svg><path d="M0 0L1 1z"/></svg><!-- c --><script type="text/template"><div></div></script></body></html>`},
+		// regressions of repaired findings (K-C09-3 / 1557146, K-C09-JS-5..7 / a80add2, K-C09-HTML-8 / 1557146, K-C09-HTML-10 / 6635adc):
+		// a payload that would minify to the end tag or comment opener of its host element; must pass every clause
+		"text/html regressions": {
+			`<style>a{b:< /style >}</style><p>x</p>`,
+			`<style>a{b:c}d{e:< /STYLE >;f:g}</style><p>x</p>`,
+			`<script>x = a< /script >/.test(b)</script><p>y</p>`,
+			`<script>var a = '<\/scr\ipt>', b = '<\57script>', c = '<\x2fscript>', d = '</scrip\x74>', e = '<'+'!--<script>';</script><p>z</p>`,
+			`<script>var s = "<!--", t = "<script>", u = "<\/script>";</script><p>after</p>`,
+			`<p><&#115;cript>alert(1)<&#47;script></p><title><&#47;title>x</title>`,
+			`<iframe><b title="&lt;/iframe&gt;">x</b></iframe><p>after</p>`,
+		},
 		"text/css":               {`@charset "utf-8";@import "a.css";@media (min-width:100px){a:hover>b.c#d[e="f"]{margin:0px 0px;color:#ff0000;background:url("x y.png") no-repeat 0% 0%;font:bold 12px/1 "Arial",sans-serif;content:"\"}"}}`},
 		"application/javascript": {"function f(a,b){if(a){return b+1}else{return `x${a}`}}var x=/re[/]/g.test('s')?1e3:0x10;for(let i=0;i<3;i++){x+=i}class A{#p=1;static m(){}}a = b + +c; d = e - -f; g = h / /re/.exec('x'); i = j < !--k; l = 1..toString(); m = 2 .toString()\nlet n = a\n++b\nvar o = a ?? (b || c); p = a?.[0]?.(1)", "x=0x10.toString(2);y=0b101.toFixed(1);z=((5)).toFixed(2);w=(5.0).a;v=1e3.b;u=0o17.c;t=(1n).toString()"},
 		"application/json":       {`{"a":[1.0e2,true,null,"sA"],"b":{"c":-0.0,"c":0.5}}`},
@@ -273,6 +284,10 @@ func c09Docs(repo string, maxBytes int) []c09Doc {
 		"text/xml":               {`<?xml version="1.0"?><a b="c &amp; d &#60; &#9;" c='"'><![CDATA[ x < y ]]> <e> t </e><f></f><g>a]&gt;b</g></a>`, `<a>]]<!-- note -->&gt;<b><![CDATA[x]]]]><!--c--><![CDATA[>y]]></b><c>]]&#62;</c></a>`},
 	} {
 		for i, s := range ss {
+			if mt == "text/html regressions" {
+				docs = append(docs, c09Doc{"text/html", fmt.Sprintf("seed-regression-%d", i), []byte(s)})
+				continue
+			}
 			docs = append(docs, c09Doc{mt, fmt.Sprintf("seed-%d", i), []byte(s)})
 		}
 	}
@@ -339,13 +354,6 @@ func init() {
 					c.R.ExcludedKnown++ // K-C09-1: truncated JSON `{"k":` is accepted, its output `{"k"` is not
 					return
 				}
-				if d.mt == "text/html" {
-					if id := c09EmbedKnown(d.data); id != "" {
-						c.R.ExcludedKnown++ // an embedded payload minifies to the end tag / comment opener of its host element
-						st.Tag("known=" + id)
-						return
-					}
-				}
 				report("output of a successful pass is rejected by the same minifier", err2.Error())
 				return
 			}
@@ -366,7 +374,12 @@ func init() {
 				}
 			case "text/html":
 				// only for unmutated documents: a document truncated inside a tag has no well-defined tree to compare with
-				if a, b := c09HTMLCensus(d.data), c09HTMLCensus(o); !mutated && a != b && c09EmbedKnown(d.data) == "" {
+				if strings.HasPrefix(d.name, "seed-regression-") && !mutated {
+					if vi, vo := c09VisibleText(d.data), c09VisibleText(o); !bytes.Equal(vi, vo) {
+						report("the visible text of the output differs from the visible text of the input (white space ignored)", h.Q(vi)+" vs "+h.Q(vo))
+					}
+				}
+				if a, b := c09HTMLCensus(d.data), c09HTMLCensus(o); !mutated && a != b {
 					report("x/net/html sees a different set of raw-text elements in the output", a+" vs "+b)
 				}
 			case "application/javascript":
